@@ -23,6 +23,8 @@ type pcall struct {
 	// class reuse-line: the caller ("owner") that issues this call; an owner keeps ONE line.CallCtx value and re-submits it
 	// with a new Param once its previous AsyncCall has returned
 	Owner int `json:"o,omitempty"`
+	// class shared-callctx (MultiLine): > 0 = the call goes through the one mline.CallCtx value with this key
+	Shared int `json:"s,omitempty"`
 }
 
 type act struct {
@@ -193,12 +195,23 @@ func (s *sched) findEv(kind, c int) int {
 	return -1
 }
 
-func newSched(p *plan) *sched {
+func newSched(p *plan) *sched { return newSchedReg(p, nil) }
+
+// newSchedReg: reg != nil = the executor uses call-context values shared with other instances
+func newSchedReg(p *plan, reg *shareReg) *sched {
 	s := &sched{p: p, results: map[int]*result{}, wake: make(chan struct{}, 1), gates: map[int]chan struct{}{}, gopen: map[int]bool{},
 		ctxs: map[int]*obsCtx{}, calls: map[int]*pcall{}, evUsed: map[int]bool{}, waiting: map[int]bool{}, gotSeen: map[int]bool{},
 		spawned: map[int]bool{}, idx: map[int]int{}, idxPan: map[int]bool{}, place: map[string]int{}, entered: map[int]bool{}, ownerLast: map[int]int{}}
 	s.m = newModel(p.X, p.Lanes, p.Q)
 	s.ex = newExecutor(p.X, p.Lanes, p.Q)
+	if reg != nil {
+		switch ex := s.ex.(type) {
+		case *exLine:
+			ex.reg = reg
+		case *exMulti:
+			ex.reg = reg
+		}
+	}
 	for i := range p.Calls {
 		pc := &p.Calls[i]
 		s.calls[pc.ID] = pc
@@ -293,6 +306,8 @@ func (s *sched) doSubmit(c int) {
 			defer func() { res.pan = recover() }()
 			if owned != nil {
 				res.r, res.err = owned.CallOwned(cx, c, pc.Owner, s.body(c))
+			} else if em, ok := s.ex.(*exMulti); ok && pc.Shared > 0 {
+				res.r, res.err = em.CallShared(cx, c, pc.Shared, int(pc.Hash), s.body(c))
 			} else {
 				res.r, res.err = s.ex.Call(cx, c, int(pc.Hash), pc.Form, s.body(c))
 			}
